@@ -162,12 +162,12 @@ theorem wrap_pass (r : Host) (p : Nat) {α : Type} {body : M α} (hb : GoneNSP p
 theorem W_gone (r : Host) (name : String) (p : Nat) {α : Type} {body : M α}
     (hw : (goodCfg r).wrapped.contains name = true) (hb : GoneFails p body) :
     GoneNSP p (W (goodCfg r) name p body) := by
-  unfold W; rw [if_pos hw]; exact wrap_gone r p hb
+  unfold W; rw [if_neg (by simp [goodCfg]), if_pos hw]; exact wrap_gone r p hb
 
 theorem W_pass (r : Host) (name : String) (p : Nat) {α : Type} {body : M α}
     (hw : (goodCfg r).wrapped.contains name = true) (hb : GoneNSP p body) :
     GoneNSP p (W (goodCfg r) name p body) := by
-  unfold W; rw [if_pos hw]; exact wrap_pass r p hb
+  unfold W; rw [if_neg (by simp [goodCfg]), if_pos hw]; exact wrap_pass r p hb
 
 /-- outside `oneshot()` the memoizing decorator is transparent -/
 theorem memoIf_fails {α : Type} {p q : Nat} (b : Bool) (get : Cache → Option α) (set : α → Cache → Cache)
